@@ -410,6 +410,32 @@ def correspond(ctx, scale):
                     failures.append({'key': f'{key}:exception:{type(ex).__name__}', 'what': f'{m["name"]} ({lay}): {ex!r}', 'case': dict(name=m['name'], layout=lay, tb=traceback.format_exc()[-800:])})
         if len(samples) < 4:
             samples.append(dict(module=m['name'], layouts=list(m['layouts'])))
+    # (5) LARGE calls: (tokens x codes) beyond 2^24 pairs in one call vs the same tokens in small chunks - a size-dependent code path (chunking,
+    # an alternative distance formula above a memory threshold ...) must give every token the same result
+    from vector_quantize_pytorch import SimVQ, ResidualSimVQ, VectorQuantize, LFQ
+    big = [('simvq-16k', lambda: SimVQ(dim=3, codebook_size=16384), 3, 1300), ('rsimvq-16k', lambda: ResidualSimVQ(dim=3, num_quantizers=2, codebook_size=16384), 3, 1100),
+           ('vq-8k', lambda: VectorQuantize(dim=3, codebook_size=8192), 3, 2200), ('lfq-4k', lambda: LFQ(codebook_size=4096, dim=12), 12, 4200)]
+    for bname, bmk, bdim, ntok in (big if not ctx.thorough else big + [('simvq-1k', lambda: SimVQ(dim=4, codebook_size=1024), 4, 17000)]):
+        try:
+            torch.manual_seed(rng.randrange(10 ** 6))
+            mod = bmk()
+            mod.eval()
+            xb = torch.randn(1, ntok, bdim)
+            with torch.no_grad():
+                rf = mod(xb)
+                parts = [mod(xb[:, i:i + 300]) for i in range(0, ntok, 300)]
+            of, jf = rf[0], rf[1]
+            oc = torch.cat([p_[0] for p_ in parts], dim=1)
+            jc = torch.cat([p_[1] for p_ in parts], dim=1)
+            ev += 1
+            dist['large_calls'] = dist.get('large_calls', 0) + 1
+            frac = (jf != jc).float().mean().item()
+            if frac > 0.01:
+                failures.append({'key': f'{bname}:large-call:indices', 'what': f'{bname}: {frac * 100:.1f}% of {ntok} tokens get a different index in one large call than in chunks of 300 (size-dependent behaviour)', 'case': dict(name=bname, tokens=ntok)})
+            elif not torch.allclose(of[(jf == jc).reshape(1, ntok, -1).all(dim=-1)], oc[(jf == jc).reshape(1, ntok, -1).all(dim=-1)], atol=1e-5, rtol=1e-4):
+                failures.append({'key': f'{bname}:large-call:outputs', 'what': f'{bname}: outputs of a large call differ from the chunked calls at tokens with equal indices', 'case': dict(name=bname, tokens=ntok)})
+        except Exception as ex:
+            failures.append({'key': f'{bname}:large-call:exception:{type(ex).__name__}', 'what': f'{bname}: {ex!r}', 'case': dict(name=bname)})
     bad, broken = core.run_cases(ctx, 'c10', HEADER, cases, per_file=30)
     for name, out in broken:
         failures.append({'key': f'coq-eval:{name}', 'what': 'case file did not evaluate: ' + out, 'case': {'file': name}})
